@@ -1,7 +1,7 @@
 (* Model/EntryHandlers.v — S-expression glue for Model/MetaHandlers.v *)
 From Coq Require Import String List Ascii NArith ZArith Bool.
 From LS Require Import Model.Bytes Model.Tags Gen.Consts Model.Sx Model.Codec Model.Readers Model.Writers
-                       Model.AriSpec Model.AriReply Model.MetaHandlers Model.Envelope Model.Classify Model.EntryWire Model.EntryReply.
+                       Model.AriSpec Model.AriReply Model.MetaHandlers Model.Envelope Model.Classify Model.EndToEnd Model.EntryWire Model.EntryReply.
 Import ListNotations.
 
 Definition sx_arg (a : arg) : sx :=
@@ -96,10 +96,30 @@ Definition e_classify (args : list sx) : sx :=
   | _ => sx_err "classify: bad args"
   end.
 
+(* (answer_meta <line> (<outcome> ...)) -> ((<call> ...) (wire <bytes>) | handler | none | unmodelled) *)
+Definition e_answer_meta (args : list sx) : sx :=
+  match args with
+  | [SA line; outs] =>
+      match un_listof un_outcome_h outs with
+      | Some os =>
+          let '(cs, a) := answer_meta line os in
+          SL [sx_list sx_acall cs;
+              match a with
+              | AnsWire b => app_ "wire" [SA b]
+              | AnsHandler => sym "handler"
+              | AnsNone => sym "none"
+              | AnsUnmodelled => sym "unmodelled"
+              end]
+      | None => sx_err "answer_meta: bad args"
+      end
+  | _ => sx_err "answer_meta: bad args"
+  end.
+
 Definition entry_handlers (h : bytes) (args : list sx) : option sx :=
   if head_is "meta_handle" h then Some (e_meta_handle args)
   else if head_is "meta_spec_calls" h then Some (e_meta_spec_calls args)
   else if head_is "envelope_reply" h then Some (e_envelope_reply args)
   else if head_is "envelope_notify" h then Some (e_envelope_notify args)
   else if head_is "classify" h then Some (e_classify args)
+  else if head_is "answer_meta" h then Some (e_answer_meta args)
   else None.
